@@ -475,7 +475,8 @@ func RunC20(t *testing.T) {
 	}
 	// every position 0..40 of a base58 string x a set of multi-byte / invalid characters
 	sweep := 0
-	for _, ch := range []string{"é", "ÿ", "\u0080", "\u0100", "\u07ff", "\u0800", "\ufffd", "\U00010123", "\xff", "\xc3", "\xe2\x82"} {
+	for _, ch := range []string{"é", "ÿ", "\u0080", "\u0100", "\u07ff", "\u0800", "\ufffd", "\U00010123", "\xff", "\xc3", "\xe2\x82",
+		" ", "\t", "\u00a0", "\u1680", "\u2003", "\u2028", "\u205f", "\u3000", "\ufeff", "\u200b"} {
 		for pos := 0; pos <= 40; pos++ {
 			for _, base := range []string{"111111111111111111111111111111111111111111", "2NEpo7TZRRrLZSi2U2NEpo7TZRRrLZSi2U2NEpo7TZ"} {
 				s := base[:pos] + ch + base[pos:]
